@@ -53,8 +53,13 @@ abbrev Table := List Row
 /-- the code as it is now: only the prologue's `optimizer.zero_grad()` -/
 def table : Table := [{ site := .prologue, touch := .zeroGrad }]
 
-/-- "between two iterations nothing touches gradients, optimiser, scheduler or scaler" -/
-def wfBetween (t : Table) : Bool := t.all fun r => r.site == .prologue && r.touch == .zeroGrad
+/-- every row is the prologue's `zero_grad()` -/
+def allPrologueZero (t : Table) : Bool := t.all fun r => r.site == .prologue && r.touch == .zeroGrad && !r.needsVal
+
+/-- "between two iterations nothing touches gradients, optimiser, scheduler or scaler — and `Engine.train` does clear
+whatever gradients the parameters carry when it is entered" (a user's backward pass before training, a previous `train()`
+on the same objects that ended inside a window) -/
+def wfBetween (t : Table) : Bool := allPrologueZero t && !t.isEmpty
 
 /-- the between-iteration calls of the loop body in source order: before `_do_iteration` / after `lr_scheduler.step()` -/
 def preOrder : List Site := [.logFirst, .validationLoop]
@@ -100,6 +105,7 @@ structure Proc where
   kill : Option Nat      -- SIGINT inside `_do_iteration` of this iteration
   swv : Bool             -- `start_with_validation`
   resume : Bool
+  stale : Option Nat := none   -- the parameters already carry the gradient of this batch when `train()` is entered
 deriving DecidableEq, Repr
 
 /-- what is observed of a completed iteration -/
@@ -136,13 +142,20 @@ def oneIter (tbl : Table) (ops : Ops P O G B L Sc) (lrAt : Nat → L) (cfg : Cfg
     let s4 := if valGuard it e.valSteps p.total then site tbl ops lrAt e.hasVal .validationLoop s3 else s3
     { ps with s := s4, latest := latest, recs := ps.recs ++ [⟨it, s0.epoch, s1.theta, s1.epoch⟩] }
 
+/-- gradients present on the parameters when `Engine.train` is entered (back-propagated at the freshly built parameters) -/
+def addStale (ops : Ops P O G B L Sc) (batch : Nat → B) (init : St P O G Sc) (p : Proc) (s : St P O G Sc) : St P O G Sc :=
+  match p.stale with
+  | some j => { s with grad := ops.add s.grad (ops.grad init.theta (batch j)) }
+  | none => s
+
 /-- where a process starts: fresh objects, or the latest checkpoint and the translated `start_iter` -/
 def procStart (tbl : Table) (rs : Int → Int → Int) (ops : Ops P O G B L Sc) (lrAt : Nat → L) (cfg : Cfg) (e : EvCfg)
-    (init : St P O G Sc) (latest : Option (Nat × Snap P O Sc)) (p : Proc) : PS P O G Sc :=
+    (batch : Nat → B) (init : St P O G Sc) (latest : Option (Nat × Snap P O Sc)) (p : Proc) : PS P O G Sc :=
   match (if p.resume then latest else none) with
   | some (label, c) =>
-    ⟨(rs (label : Int) (cfg.k : Int)).toNat, site tbl ops lrAt e.hasVal .prologue (restore ops.zero c), latest, [], false⟩
-  | none => ⟨0, site tbl ops lrAt e.hasVal .prologue init, latest, [], false⟩
+    ⟨(rs (label : Int) (cfg.k : Int)).toNat,
+      site tbl ops lrAt e.hasVal .prologue (addStale ops batch init p (restore ops.zero c)), latest, [], false⟩
+  | none => ⟨0, site tbl ops lrAt e.hasVal .prologue (addStale ops batch init p init), latest, [], false⟩
 
 def runFrom (tbl : Table) (ops : Ops P O G B L Sc) (lrAt : Nat → L) (cfg : Cfg) (e : EvCfg) (batch : Nat → B)
     (p : Proc) (ps : PS P O G Sc) (a n : Nat) : PS P O G Sc :=
@@ -150,7 +163,7 @@ def runFrom (tbl : Table) (ops : Ops P O G B L Sc) (lrAt : Nat → L) (cfg : Cfg
 
 def runProc (tbl : Table) (rs : Int → Int → Int) (ops : Ops P O G B L Sc) (lrAt : Nat → L) (cfg : Cfg) (e : EvCfg)
     (batch : Nat → B) (init : St P O G Sc) (latest : Option (Nat × Snap P O Sc)) (p : Proc) : PS P O G Sc :=
-  let ps := procStart tbl rs ops lrAt cfg e init latest p
+  let ps := procStart tbl rs ops lrAt cfg e batch init latest p
   runFrom tbl ops lrAt cfg e batch p ps ps.start (p.total - ps.start)
 
 /-- processes one after the other on the same experiment directory -/
@@ -163,8 +176,38 @@ def history (tbl : Table) (rs : Int → Int → Int) (ops : Ops P O G B L Sc) (l
 
 end machine
 
+/-- the table of seeded regression C16-8: the prologue's `optimizer.zero_grad()` removed -/
+def tableNoPrologue : Table := []
+
 /-- the table of seeded regression C16-5: `optimizer.zero_grad(set_to_none=True)` at the top of a validation round -/
 def tableValZero : Table := table ++ [{ site := .validationLoop, touch := .zeroGrad, needsVal := true }]
+
+/-! ## gradient clipping over several optimised modules
+
+`clip_grad_norm_` is called **once**, on the flat list of the parameters of `self.model` and of every model in
+`self.models`: the norm is the global one.  (Executable stand-in with the L1 norm on integers.) -/
+
+inductive ClipForm where
+  | oneCallUnion   -- one call over the union of all optimised parameters
+  | perModule      -- one call per module: each module against its own norm
+  | mainOnly       -- `self.model.parameters()` only
+deriving DecidableEq, Repr
+
+/-- the loop as it is now -/
+def clipForm : ClipForm := .oneCallUnion
+
+def norm1 (g : List Int) : Int := g.foldl (fun a x => a + (x.natAbs : Int)) 0
+def scaleTo (c n : Int) (g : List Int) : List Int := g.map fun x => x * c / n
+/-- `clip_grad_norm_(g, c)` on one flat list -/
+def clip1 (c : Int) (g : List Int) : List Int := if norm1 g ≤ c then g else scaleTo c (norm1 g) g
+
+def clipModules (form : ClipForm) (c : Int) (mods : List (List Int)) : List (List Int) :=
+  match form with
+  | .oneCallUnion => if norm1 mods.flatten ≤ c then mods else mods.map (scaleTo c (norm1 mods.flatten))
+  | .perModule => mods.map (clip1 c)
+  | .mainOnly => match mods with
+    | [] => []
+    | m :: rest => clip1 c m :: rest
 
 /-! ## the GradScaler protocol of the step branch (mixed precision)
 
